@@ -132,7 +132,10 @@ package nsx
 // writeRule builds the URL from r.Id and then clears it ("Don't send Id
 // twice"): a second request for the same rule would go to .../rules/ with an
 // empty id. Every caller writes each rule at most once.
+// (frame: building the request changes nothing but the id of that rule - no
+// state that a later request for another rule or another policy would read)
 //vc:func (*rulesPair).writeRule
+//vc:  modifies nsxRule.Id
 //vc:  requires[C04] @ruleIdKnown r.Id != ""
 //vc:  ensures[C04] r.Id == "" && (forall q *nsxRule :: { q.Id } q != r ==> q.Id == old(q.Id))
 //vc:func (*rulesPair).equalizeGroups
